@@ -735,7 +735,8 @@ int main(int argc, char** argv) {
     for (int i = 0; i < N_CTR; ++i) g_named[i] = new vh::NamedCounter(ctr_name[i]);
     uint64_t nseq = A.geti("sequences", A.thorough() ? 6000 : 1200);
     int force_kind = (int)A.geti("kind", -1);
-    uint64_t xseed = A.xseed();
+    // the asan and plain flavors of one check get the same --seed/--exec: give them different sequences
+    uint64_t xseed = vh::mix(A.xseed(), vh::hash_bytes(VH_FLAVOR, strlen(VH_FLAVOR)));
     vh::config("sequences", (int64_t)nseq);
     g_sh = (Shared*)mmap(nullptr, sizeof(Shared), PROT_READ | PROT_WRITE, MAP_SHARED | MAP_ANONYMOUS, -1, 0);
     if (g_sh == MAP_FAILED) vh::machinery_failure("mmap failed");
@@ -808,7 +809,12 @@ int main(int argc, char** argv) {
         g_named[N_CRASHED_SEQ]->add(1);
         vh::note_input(vh::mix(xseed, begun) ^ 0xC2A5, true);
         fprintf(stderr, "[h_fileadapt] child died (%s) in sequence %" PRIu64 ": %s\n", kind.c_str(), begun, g_sh->desc);
-        if (++crashes > 400) { vh::inconclusive("too many crashing sequences"); break; }
+        // every crash costs a sanitizer report (seconds under load); a tree on which crashes are this common has
+        // been reported already, so stop exploring this execution (not inconclusive: the violations stand)
+        if (++crashes >= (int)A.geti("max_crashes", 12 + (int64_t)nseq / 100)) {
+            vh::config("stopped_early", "after " + std::to_string(crashes) + " crashing sequences, at sequence " + std::to_string(begun));
+            break;
+        }
         from = begun + 1;
     }
     // events = operations checked (sent as counter deltas)
